@@ -148,19 +148,25 @@ func Open(options Options) (*DB, error) {
 	if db.options.EnableBackgroundMerge {
 		go func() {
 			var flushes uint = 0
+			// bytesWrite 由写入方在持有锁时更新, 后台协程同样需在持有锁后读取
+			bytesWrite := func() uint {
+				db.mu.RLock()
+				defer db.mu.RUnlock()
+				return db.bytesWrite
+			}
 			ticker := time.NewTicker(time.Second)
 			defer ticker.Stop()
 			for {
 				select {
 				case <-ticker.C:
-					if flushes == db.bytesWrite {
+					if flushes == bytesWrite() {
 						continue
 					}
 					if err := db.Merge(); err != nil {
 						// 记录错误日志
 						fmt.Printf("failed to merge db: %v\n", err)
 					}
-					flushes = db.bytesWrite
+					flushes = bytesWrite()
 				case <-db.closedChan:
 					return
 				}
